@@ -117,6 +117,13 @@ type fsf struct {
 	listed    map[string]bool // ids of names[0] listed after the previous operation
 	announced map[string]int  // id of names[0] -> number of deleted events
 	before    map[string]string
+
+	// used by the legs that run this machinery under other properties (storefault.go); nil / zero in the C16 leg
+	pred    func(k int, step string) bool                   // a CLASS of refused calls, decided on the real execution: hook call k of the operation, announcing `step`, is refused
+	afterOp func()                                          // runs when the operation has returned, before anything is listed
+	oracle  func(o storeOp, obs *fsfObs, in *fsfInject)     // further implementation-only oracles, run before the model is consulted
+	extra   string                                          // appended to the model query (a fault the hook calls do not carry)
+	pending string                                          // the operation in progress, until its line (with what was refused and what it answered) joins the trace
 }
 
 func (h *fsf) boxPath(box string) string {
@@ -125,7 +132,11 @@ func (h *fsf) boxPath(box string) string {
 }
 
 func (h *fsf) lines(extra ...string) []string {
-	return append(append([]string{}, h.trace...), extra...)
+	l := append([]string{}, h.trace...)
+	if h.pending != "" {
+		l = append(l, h.pending) // the operation whose outcome is being looked at: part of the failing input
+	}
+	return append(l, extra...)
 }
 
 // sync with the asynchronous broker: everything emitted before the sentinel has been delivered when the sentinel arrives
@@ -162,6 +173,11 @@ type fsfInject struct {
 	parents  bool // a rmdir-parent was refused: the harness removes the empty parents itself afterwards (the model does not remember them)
 	reader   *fsfReader
 	devFull  bool
+	placed   map[int]bool // refused calls whose obstruction was put in place one hook call earlier (flush-tmp)
+}
+
+func (in *fsfInject) refused(k int, step string) bool {
+	return in.refuse[k] || (in.h.pred != nil && in.h.pred(k, step))
 }
 
 func (in *fsfInject) token(step, path string) string {
@@ -214,10 +230,13 @@ func (in *fsfInject) hook(step, path string) {
 	in.k++
 	in.toks = append(in.toks, in.token(step, path))
 	side := path + ".fsfault-aside"
-	if !in.refuse[k] {
+	if in.placed[k] {
+		return
+	}
+	if !in.refused(k, step) {
 		// a refused flush-tmp is prepared one hook call earlier: the file about to be created becomes /dev/full
 		ahead := -1
-		if step == "create-tmp" && in.refuse[k+1] {
+		if step == "create-tmp" && in.refused(k+1, "flush-tmp") {
 			ahead = k + 1
 		}
 		if ahead >= 0 && in.devFull && in.undo == nil {
@@ -231,6 +250,7 @@ func (in *fsfInject) hook(step, path string) {
 				})
 				in.injected = append(in.injected, ahead)
 				in.refuse[ahead] = false // placed; not to be counted as "could not be obstructed" when the flush comes
+				in.placed[ahead] = true
 			}
 		}
 		return
@@ -344,7 +364,7 @@ func (h *fsf) delivery(o storeOp, rd *fsfReader) *message.Delivery {
 
 // run one operation on the real store with the hook calls `refuse` obstructed
 func (h *fsf) run(o storeOp, refuse []int) (*fsfObs, *fsfInject) {
-	in := &fsfInject{h: h, box: o.box, refuse: map[int]bool{}, undoAt: -1}
+	in := &fsfInject{h: h, box: o.box, refuse: map[int]bool{}, undoAt: -1, placed: map[int]bool{}}
 	if _, err := os.Stat("/dev/full"); err == nil {
 		in.devFull = true
 	}
@@ -386,6 +406,9 @@ func (h *fsf) run(o storeOp, refuse []int) (*fsfObs, *fsfInject) {
 		}
 	}()
 	in.finish()
+	if h.afterOp != nil {
+		h.afterOp()
+	}
 	obs.toks = in.toks
 	if !h.sync() {
 		h.c.Fail("events-arrive", h.lines(), "the sentinel event emitted after the operation did not reach the listener within 20 s", "")
@@ -469,6 +492,9 @@ func (h *fsf) ask(o storeOp, ks []int, dry bool) string {
 	if dry {
 		q += " dry=1"
 	}
+	if h.extra != "" {
+		q += " " + h.extra
+	}
 	return h.m.Ask(q)
 }
 
@@ -509,7 +535,9 @@ func (h *fsf) step(o storeOp, refuse []int, label string, exact bool) (*fsfObs, 
 		}
 		h.bodies[o.box][o.id] = o.body
 	}
+	h.pending = fmt.Sprintf("%s   [%s] (this operation)", c11Short(line), label)
 	obs, in := h.run(o, refuse)
+	h.pending = ""
 	if h.dead {
 		return obs, in
 	}
@@ -541,7 +569,7 @@ func (h *fsf) step(o storeOp, refuse []int, label string, exact bool) (*fsfObs, 
 			c.Fail("untouched-unchanged", h.lines(), fmt.Sprintf("mailbox %q (not the operation's) lists %s, before the operation %s", b, c11Short(obs.per[b]), c11Short(h.before[b])), "")
 		}
 	}
-	if len(in.injected) == 0 && len(refuse) == 0 && obs.res == "err" {
+	if len(in.injected) == 0 && len(refuse) == 0 && obs.res == "err" && h.extra == "" {
 		c.Fail("usable-after-fault", h.lines(), "an operation without any fault failed", "")
 	}
 	// ---- the event bookkeeping of the addressed mailbox (names[0])
@@ -583,6 +611,9 @@ func (h *fsf) step(o storeOp, refuse []int, label string, exact bool) (*fsfObs, 
 		h.listed = obs.ids
 	}
 	h.before = obs.per
+	if h.oracle != nil {
+		h.oracle(o, obs, in)
+	}
 	// ---- T2: the model
 	if !h.noModel {
 		ans := h.ask(o, in.injected, false)
